@@ -192,3 +192,19 @@ Proof.
     destruct (ci_hex i); [apply negb_true_iff in H; apply (hd_is_imp is_digit is_hexdigit); [exact digit_hexdigit|exact H]|
       apply andb_prop in H; destruct H as [H _]; now apply negb_true_iff in H].
 Qed.
+
+(* ---------- ASCII heads: every token of the grammar begins with an ASCII byte ---------- *)
+Definition hd_ascii (k : list byte) : bool := hd_sat (fun b => N.ltb (bn b) 128) k.
+Lemma bs_ascii b : blank_start b = true -> N.ltb (bn b) 128 = true.
+Proof. destruct b; vm_compute; intro H; try reflexivity; discriminate H. Qed.
+Lemma wordend_of r : hd_ascii r = true -> nid r = true -> wordend r = true.
+Proof. destruct r as [|b r]; [reflexivity|]. unfold hd_ascii, nid, wordend. cbn [hd_sat]. intros -> ->. reflexivity. Qed.
+Lemma idh_ascii b : (is_alpha b || is_underscore b) = true -> N.ltb (bn b) 128 = true.
+Proof. destruct b; vm_compute; intro H; try reflexivity; discriminate H. Qed.
+Lemma ident_ascii s k : is_ident s = true -> hd_ascii (s ++ k) = true.
+Proof.
+  destruct s as [|h t]; [discriminate|]. cbn [is_ident]. intros H. apply andb_prop in H. destruct H as [H _].
+  unfold hd_ascii. cbn [app hd_sat]. now apply idh_ascii.
+Qed.
+Lemma digit_ascii b : is_digit b = true -> N.ltb (bn b) 128 = true.
+Proof. destruct b; vm_compute; intro H; try reflexivity; discriminate H. Qed.
